@@ -419,8 +419,8 @@ void gen_hostile(Plan& p, Rng& r)
     static const char* ops[] = {"h_index", "h_waveform", "h_snapshot", "h_lookup", "h_after", "h_stale_track",
                                 "h_stale_crate", "h_names", "create_track", "update", "set", "remove_track",
                                 "create_root", "create_sub", "create_sub_after", "set_name", "set_parent",
-                                "remove_crate", "add_track", "remove_from", "clear", "reload", "rewrite"};
-    std::vector<unsigned> w = {12, 6, 10, 5, 6, 8, 8, 4, 6, 4, 12, 6, 3, 6, 3, 2, 6, 6, 5, 2, 1, 2, 2};
+                                "remove_crate", "add_track", "remove_from", "clear", "reload", "rewrite", "obs_fault"};
+    std::vector<unsigned> w = {12, 6, 10, 5, 6, 8, 8, 4, 6, 4, 12, 6, 3, 6, 3, 2, 6, 6, 5, 2, 1, 2, 2, 3};
     for (auto& x : w)
         if (r.chance(1, 5))
             x = 0;
@@ -595,9 +595,18 @@ Plan generate_plan(const std::string& profile_in, uint64_t seed, uint64_t index)
         // low-rate one-shot faults inside ordinary histories: a statement refused at its boundary (F1) or the second
         // party taking the write lock between two statements (F9).  For both, a call that throws has changed nothing,
         // so the model simply does not advance and every later check (incl. close / reload) still applies.
+        // ... and inside observing calls (one or two observation rounds under fault per history)
+        {
+            int extra = 1 + (int)r.below(2);
+            for (int i = 0; i < extra; ++i)
+            {
+                size_t pos = 1 + r.below(p.steps.size());
+                p.steps.insert(p.steps.begin() + (long)pos, mk("obs_fault", r, 1, 1));
+            }
+        }
         for (auto& st : p.steps)
         {
-            if (st.op == "reload" || st.op == "clock" || !r.chance(1, 6))
+            if (st.op == "reload" || st.op == "clock" || st.op == "obs_fault" || !r.chance(1, 6))
                 continue;
             st.fault.kind = r.chance(1, 2) ? FK_STMT : FK_LOCK;
             st.fault.pos = (int64_t)r.below(r.chance(1, 2) ? 4 : 14);
